@@ -526,9 +526,17 @@ class Executor:
                 if '{closure#' in n and f.args:
                     t = f.locals[f.args[0]]
                     m = re.search(r'\{(?:closure|async block|async fn body of [^@]*|async closure)@([^}]*)\}', t)
-                    if m: self._clos.setdefault(m.group(1), n)
+                    if m: self._clos.setdefault(m.group(1), []).append(n)
         if span not in self._clos: raise Unsupported('closure ' + span)
-        return self._clos[span]
+        cands = self._clos[span]
+        if len(cands) > 1 and self.cur_fn:
+            # closures generated by one macro share a span: take the one nested in the function being executed
+            cur = self.cur_fn[-1]
+            mine = [n for n in cands if n.startswith(cur + '::{closure#')]
+            direct = [n for n in mine if '::{closure#' not in n[len(cur) + 2 + n[len(cur) + 2:].find('}') + 1:]] or mine
+            if len(direct) >= 1: return direct[0]
+            raise Unsupported(f'closure {span}: {len(cands)} candidates, none nested in {cur}')
+        return cands[0]
 
     def operand(self, frame, s, f=None):
         s = s.strip()
@@ -827,7 +835,7 @@ class Executor:
                         tgt.discr = int(m.group(2)); continue
                 if st.startswith('assume('):
                     continue
-                i = st.find(' = ')
+                i = self.assign_split(st)
                 if i < 0: raise Unsupported('statement ' + st)
                 lhs, rhs = st[:i], st[i + 3:]
                 v = self.rvalue(frame, rhs, f)
@@ -893,6 +901,28 @@ class Executor:
                 bb = rm.group(1); continue
             raise Unsupported('terminator ' + t)
 
+    _assign_cache = {}
+
+    @classmethod
+    def assign_split(cls, st):
+        """index of the assignment's ` = ` (types inside the place may contain ` = `, e.g. `dyn Future<Output = T>`)"""
+        i = cls._assign_cache.get(st)
+        if i is not None: return i
+        i = st.find(' = ')
+        if i >= 0 and ('<' in st[:i] or '(' in st[:i]):
+            depth, j, n = 0, 0, len(st)
+            i = -1
+            while j < n:
+                c = st[j]
+                if c in '(<[': depth += 1
+                elif c in ')]': depth -= 1
+                elif c == '>' and j > 0 and st[j - 1] not in '-=': depth -= 1
+                elif c == ' ' and depth == 0 and st.startswith(' = ', j):
+                    i = j; break
+                j += 1
+        cls._assign_cache[st] = i
+        return i
+
     @staticmethod
     def split_call(t):
         idx = t.rfind(') -> ')
@@ -936,7 +966,6 @@ class Executor:
                     callee2 = re.sub(r'\b' + gm.group(1) + r'\b', dyn, callee)
                     user = self.resolver.resolve_fn(self, callee2)
                     if user is not None: callee, amb = callee2, None
-        if amb is not None: raise amb
         for mdl in self.models:
             pat, fn = mdl[0], mdl[1]
             if re.search(pat, c):
@@ -945,6 +974,7 @@ class Executor:
                     break       # never let a library model shadow dropshot's own code
                 self.models_used.add(pat)
                 return fn(self, args, callee)
+        if amb is not None: raise amb
         if user is not None:
             m = re.match(r'^<(&+)', callee)
             if m:
